@@ -9,6 +9,8 @@ import (
 	"fmt"
 	"sort"
 	"strings"
+
+	goat "github.com/philhassey/goatlang"
 )
 
 func init() { checks["C01"] = runC01 }
@@ -44,7 +46,233 @@ func (c *Ctx) goDiff(cut string, progs []GoProg, feats []map[string]bool) error 
 	return nil
 }
 
+// ---------------------------------------------------------------- MiniGo: the fragment with an end-to-end theorem
+
+type mgGen struct {
+	r      *RNG
+	acts   []string // model tokens "A slot expr"
+	cnds   []string // "C op a b"
+	nloops int
+}
+
+const mgLocals, mgCounters = 6, 4
+
+func (g *mgGen) expr(d int) (src, tok string) {
+	r := g.r
+	if d <= 0 || r.Intn(3) == 0 {
+		if r.Bool() {
+			i := r.Intn(mgLocals)
+			return fmt.Sprintf("l%d", i), fmt.Sprintf("l%d", i)
+		}
+		k := r.Intn(21)
+		return fmt.Sprint(k), fmt.Sprintf("n%d", k)
+	}
+	a, at := g.expr(d - 1)
+	op := Pick(r, []string{"+", "-", "*", "+", "-", "/", "%"})
+	if (op == "/" || op == "%") && r.Intn(8) != 0 { // mostly a non-zero constant divisor; sometimes any expression (may panic)
+		k := 1 + r.Intn(9)
+		return fmt.Sprintf("(%s %s %d)", a, op, k), fmt.Sprintf("%s %s n%d", op, at, k)
+	}
+	b, bt := g.expr(d - 1)
+	return fmt.Sprintf("(%s %s %s)", a, op, b), fmt.Sprintf("%s %s %s", op, at, bt)
+}
+
+func (g *mgGen) act(slot int, src, tok string) (string, string) {
+	g.acts = append(g.acts, fmt.Sprintf("A %d %s", slot, tok))
+	return fmt.Sprintf("l%d = %s\n", slot, src), fmt.Sprintf("act %d", len(g.acts)-1)
+}
+
+func (g *mgGen) cnd() (string, string) {
+	r := g.r
+	a, at := g.expr(1)
+	b, bt := g.expr(1)
+	op := Pick(r, [][2]string{{"<", "lt"}, {"<=", "lte"}, {">", "gt"}, {">=", "gte"}, {"==", "eq"}, {"!=", "neq"}})
+	g.cnds = append(g.cnds, fmt.Sprintf("C %s %s %s", op[1], at, bt))
+	return fmt.Sprintf("%s %s %s", a, op[0], b), fmt.Sprint(len(g.cnds) - 1)
+}
+
+// stmt returns source text and model tokens (prefix form)
+func (g *mgGen) stmt(d int, inLoop bool) (string, string) {
+	r := g.r
+	k := r.Intn(100)
+	if d <= 0 && k >= 40 {
+		k = r.Intn(40)
+	}
+	switch {
+	case k < 30:
+		e, et := g.expr(2)
+		return g.act(r.Intn(mgLocals), e, et)
+	case k < 36 && inLoop:
+		c, ci := g.cnd()
+		return fmt.Sprintf("if %s {\nbreak\n}\n", c), fmt.Sprintf("ift %s brk", ci)
+	case k < 40 && inLoop:
+		c, ci := g.cnd()
+		return fmt.Sprintf("if %s {\ncontinue\n}\n", c), fmt.Sprintf("ift %s cont", ci)
+	case k < 55:
+		a, at := g.stmt(d-1, inLoop)
+		b, bt := g.stmt(d-1, inLoop)
+		return a + b, "seq " + at + " " + bt
+	case k < 68:
+		c, ci := g.cnd()
+		a, at := g.stmt(d-1, inLoop)
+		b, bt := g.stmt(d-1, inLoop)
+		return fmt.Sprintf("if %s {\n%s} else {\n%s}\n", c, a, b), fmt.Sprintf("ite %s %s %s", ci, at, bt)
+	case k < 80:
+		c, ci := g.cnd()
+		a, at := g.stmt(d-1, inLoop)
+		return fmt.Sprintf("if %s {\n%s}\n", c, a), fmt.Sprintf("ift %s %s", ci, at)
+	case k < 92 && g.nloops < mgCounters: // for ck = 0; ck < N; ck = ck + 1 { body }
+		ck := mgLocals + g.nloops
+		g.nloops++
+		n := r.Intn(5)
+		g.acts = append(g.acts, fmt.Sprintf("A %d n0", ck))
+		initI := len(g.acts) - 1
+		g.acts = append(g.acts, fmt.Sprintf("A %d + l%d n1", ck, ck))
+		postI := len(g.acts) - 1
+		g.cnds = append(g.cnds, fmt.Sprintf("C lt l%d n%d", ck, n))
+		cI := len(g.cnds) - 1
+		b, bt := g.stmt(d-1, true)
+		return fmt.Sprintf("for l%d = 0; l%d < %d; l%d = l%d + 1 {\n%s}\n", ck, ck, n, ck, ck, b),
+			fmt.Sprintf("seq act %d loop %d %d %s", initI, cI, postI, bt)
+	case g.nloops < mgCounters: // ck = 0; for { if ck >= N { break }; ck = ck + 1; body }
+		ck := mgLocals + g.nloops
+		g.nloops++
+		n := r.Intn(5)
+		g.acts = append(g.acts, fmt.Sprintf("A %d n0", ck))
+		initI := len(g.acts) - 1
+		g.acts = append(g.acts, fmt.Sprintf("A %d + l%d n1", ck, ck))
+		incI := len(g.acts) - 1
+		g.cnds = append(g.cnds, fmt.Sprintf("C gte l%d n%d", ck, n))
+		cI := len(g.cnds) - 1
+		b, bt := g.stmt(d-1, true)
+		return fmt.Sprintf("l%d = 0\nfor {\nif l%d >= %d {\nbreak\n}\nl%d = l%d + 1\n%s}\n", ck, ck, n, ck, ck, b),
+			fmt.Sprintf("seq act %d forever 9999 seq ift %d brk seq act %d %s", initI, cI, incI, bt)
+	}
+	e, et := g.expr(1)
+	return g.act(r.Intn(mgLocals), e, et)
+}
+
+func (c *Ctx) c01MiniGo(n int) error {
+	r := c.RNG
+	nl := mgLocals + mgCounters
+	var params, rets, retTypes []string
+	for i := 0; i < nl; i++ {
+		params = append(params, fmt.Sprintf("l%d int", i))
+		rets = append(rets, fmt.Sprintf("l%d", i))
+		retTypes = append(retTypes, "int")
+	}
+	type job struct {
+		src, line, code, outOff, outOn string
+	}
+	var jobs []job
+	var lines []string
+	for it := 0; it < n; it++ {
+		g := &mgGen{r: r}
+		body, toks := g.stmt(2+r.Intn(3), false)
+		var init, initS []string
+		for i := 0; i < nl; i++ {
+			v := r.Intn(30) - 5
+			if i >= mgLocals {
+				v = 0
+			}
+			init = append(init, fmt.Sprint(v))
+			initS = append(initS, fmt.Sprintf("(%d)", v))
+		}
+		src := fmt.Sprintf("func f(%s) (%s) {\n%sreturn %s\n}\n", strings.Join(params, ", "), strings.Join(retTypes, ", "), body, strings.Join(rets, ", "))
+		line := "mini " + strings.Join(init, ",") + " | " + toks
+		for _, a := range g.acts {
+			line += " | " + a
+		}
+		for _, k := range g.cnds {
+			line += " | " + k
+		}
+		j := job{src: src, line: line}
+		// the real compiler's body code, optimizer off
+		ins, _, err := goat.New().VerifCompile(src, false)
+		if err != nil {
+			j.code = "compile error: " + err.Error()
+		} else {
+			lo, hi := 1+2*nl, len(ins)-(nl+2)
+			var w []string
+			if lo <= hi {
+				for _, in := range ins[lo:hi] {
+					w = append(w, fmt.Sprintf("%s:%d", in.Code, in.A))
+				}
+			}
+			j.code = strings.Join(w, ",")
+		}
+		call := src + fmt.Sprintf("%s := f(%s)\nprintln(%s)\n", strings.Join(rets, ", "), strings.Join(initS, ", "), strings.Join(rets, ", "))
+		for _, opt := range []bool{false, true} {
+			goat.VerifSetBudget(3000000)
+			o, e := runScriptOpt(call, opt)
+			goat.VerifSetBudget(-1)
+			res := strings.ReplaceAll(strings.TrimSpace(o), " ", ",")
+			if e != nil {
+				res = "panic"
+				if strings.Contains(e.Error(), "budget") {
+					res = "fuel"
+				}
+			}
+			if opt {
+				j.outOn = res
+			} else {
+				j.outOff = res
+			}
+		}
+		jobs = append(jobs, j)
+		lines = append(lines, line)
+		c.Rep.Seen(src, strings.Contains(toks, "loop") || strings.Contains(toks, "forever"))
+		if it == 0 {
+			c.Rep.Sample(map[string]any{"minigo_program": src, "model_line": line})
+		}
+	}
+	if c.Model == nil {
+		return nil
+	}
+	ans, err := c.Model.AskAll(lines)
+	if err != nil {
+		return err
+	}
+	for i, j := range jobs {
+		c.Rep.Corr["minigo"]++
+		want := fmt.Sprintf("code=%s vm=%s src=%s", j.code, j.outOff, j.outOn)
+		a := ans[i]
+		// the model's three answers: its compiled code, its machine's result, Go's source semantics
+		if a != fmt.Sprintf("code=%s vm=%s src=%s", j.code, j.outOff, j.outOff) || j.outOff != j.outOn {
+			c.Rep.Violate(Violation{Kind: "correspondence", Cut: "minigo", Input: map[string]any{"program": j.src, "model_line": j.line}, Impl: want, Model: a})
+		}
+		switch {
+		case j.outOff == "panic":
+			c.Rep.Count("minigo-panic")
+		case j.outOff == "fuel":
+			c.Rep.Count("minigo-fuel")
+		default:
+			c.Rep.Count("minigo-ok")
+		}
+	}
+	return nil
+}
+
+func runScriptOpt(src string, opt bool) (out string, err error) {
+	defer func() {
+		if r := recover(); r != nil {
+			err = fmt.Errorf("PANIC %v", r)
+		}
+	}()
+	var w strings.Builder
+	vm := goat.New(goat.WithStdout(&w))
+	_, err = vm.VerifEval(src, opt)
+	return w.String(), err
+}
+
 func runC01(c *Ctx) error {
+	nm := 300
+	if c.Thorough() {
+		nm = 20000
+	}
+	if err := c.c01MiniGo(nm); err != nil {
+		return err
+	}
 	c.Rep.Rule = "generated Go programs (type-directed: ints with all operators, bools with && ||, slices, maps, struct references with methods, helper functions, if/else-if, three kinds of for, range over slice/map/string, tagged and tagless switch with expression lists and default anywhere, break/continue/early return; plus the scoping generator) compiled and run by the Go toolchain with GOARCH=386 and by goatlang; stdout and outcome must be equal; distinct = distinct source; non-trivial = more than 8 blocks"
 	n := 200
 	if c.Thorough() {
